@@ -77,10 +77,10 @@ fn c02_standard_geometric() {
 vproof! {
     #[kani::unwind(12)]
     fn c03_geometric() {
+        let mut rng = SymRng::new(4); // all symbolic inputs are drawn first (replay alignment)
         let p: f64 = kani::any();
         kani::assume(!(p > 0.0 && p < 0.00390625));
         let d = match Geometric::new(p) { Ok(d) => d, Err(_) => return };
-        let mut rng = SymRng::new(4);
         let words = rng.words;
         let x = d.sample(&mut rng);
         if p == 0.0 || 1.0 - p == 1.0 {
